@@ -15,6 +15,32 @@ CHECKS = {
             "sampled beyond.",
             "Trusts Python's int(s, 2) / int.to_bytes; reads are only required to be right for p+n inside the buffer.",
             "DESIGN.md 3/C03"),
+    "C04": ("exploration",
+            "exhaustive enumeration (all patterns of small integer widths, all binary16 values) + Hypothesis-generated "
+            "fields against a bit-string/Fraction reference decoder",
+            "Parameter.parse is compared with an independent reference for every bit pattern of integer widths <= 10 "
+            "(thorough <= 16) at every offset and sign convention, every binary16 pattern at several (thorough: all) "
+            "offsets and both byte orders, and Hypothesis-sampled wider integers, binary32/64 and MIL-STD-1750A values "
+            "with boundary classes. Complete on the enumerated sub-domains, sampled beyond.",
+            "Trusts vf/refbits.py (cross-checked against struct inside the check); little-endian only for whole-byte widths.",
+            "DESIGN.md 3/C04"),
+    "C06": ("exploration",
+            "exhaustive truth tables of criteria trees up to a size bound + Hypothesis-generated trees against an own "
+            "evaluator over plain Python values",
+            "All 16 operator spellings x selectors x boundary operands (incl. falsy and int-vs-float) for Comparison and "
+            "Condition, every ANDed/ORed tree shape up to 4 (thorough 5) leaves x all assignments, comparison lists and "
+            "discrete-lookup lists with all match patterns, plus random nested trees; both constructor and from_xml routes. "
+            "Complete up to the stated bounds, sampled beyond.",
+            "Literals are spelled in the type of the compared value; raw byte buffers are not referenced by criteria.",
+            "DESIGN.md 3/C06"),
+    "C13": ("exploration",
+            "exhaustive enumeration of every 16-bit header word, boundary product and rejection cases + Hypothesis, "
+            "against an own string-formatted header layout (round trip through the framer)",
+            "create_ccsds_packet, the seven accessors, header_values, data_length and re-framing are compared with an "
+            "own layout for all 2^16 values of each header word, the 5^7 boundary product, (thorough) every data length "
+            "1..65536, the converse direction on arbitrary headers, and all out-of-range rejections.",
+            "Trusts the CCSDS layout as stated in the property; end-of-stream behaviour of the framer is C10's subject.",
+            "DESIGN.md 3/C13"),
 }
 
 PENDING_REASON = "check not built yet in this round (planned, see DESIGN.md section 3); nothing is claimed for it"
